@@ -327,6 +327,7 @@ def extract_fn(relpath, qual, ann):
     apply_forloops(ed, it["loops"], src, ann, qual)
     apply_fund_sums(ed, src, s0, e0)
     apply_destructuring_assign(ed, src, s0, e0)
+    apply_format_macros(ed, it, src)
     apply_storage_has(ed, it, src)
     apply_anyloops(ed, it, it["closures"], src, ann, qual)
     apply_findloops(ed, it, it["closures"], src, ann, qual)
@@ -498,6 +499,14 @@ def apply_destructuring_assign(ed, src, s0, e0):
     for n, m in enumerate(_DESTRUCT_ASSIGN.finditer(body)):
         a, b, e = m.group(2).decode(), m.group(3).decode(), m.group(4).decode().strip()
         ed.add(s0 + m.start(), s0 + m.end(), m.group(1).decode() + f"let verif_t{n} = {e}; {a} = verif_t{n}.0; {b} = verif_t{n}.1;", "D21", "tuple destructuring assignment spelled out")
+
+
+
+def apply_format_macros(ed, it, src, inside=lambda sp: True):
+    """R14: `format!(..)` (used for error texts and labels) -> `verif_format()`, an arbitrary String: no contract may depend on the text."""
+    for m in it.get("macros", []):
+        if m["path"] in ("format", "std::format", "alloc::format") and inside(m["span"]):
+            ed.add(m["span"][0], m["span"][1], "verif_format()", "R14", "format!(..) -> arbitrary String")
 
 
 
@@ -717,6 +726,7 @@ def extract_segment(relpath, qual, ann):
     apply_forloops(ed, seg_loops, src, ann, qual)
     apply_fund_sums(ed, src, s0, e0)
     apply_destructuring_assign(ed, src, s0, e0)
+    apply_format_macros(ed, it, src, inside)
     apply_storage_has(ed, it, src, inside)
     apply_anyloops(ed, it, seg_closures, src, ann, qual)
     apply_findloops(ed, it, seg_closures, src, ann, qual)
